@@ -14,14 +14,17 @@ namespace Tcb
 theorem caps_fresh (cfg : Cfg) (st : TcpState) (p : SockAddr) (a b c : Nat) : TcbCaps cfg (fresh st p a b c) := by
   simp [TcbCaps, fresh]
 
+theorem caps_ackAdvance {cfg : Cfg} {t : Tcb} (ack : Nat) (h : TcbCaps cfg t) : TcbCaps cfg (t.ackAdvance ack) := by
+  unfold ackAdvance
+  simp only [TcbCaps, List.length_drop] at *
+  omega
+
 theorem caps_onAck {cfg : Cfg} {t : Tcb} (s : Seg) (h : TcbCaps cfg t) : TcbCaps cfg (t.onAck s) := by
   unfold onAck
-  dsimp only
   split
   · split
-    · simp only [TcbCaps, List.length_drop] at *
-      omega
-    · simpa [TcbCaps] using h
+    · exact caps_ackAdvance (cfg := cfg) s.ack h
+    · exact h
   · exact h
 
 theorem acceptLen_le (recvCap : Nat) (t : Tcb) (s : Seg) :
